@@ -10,7 +10,12 @@ from ..report import Check
 from ..rules import calls_in_func, last_name
 from .c13 import resume_value_forwarding
 
-LOC = 'self._waiting_future'
+LOC = 'self._waiting_future'   # default; the name actually used is read from Waiting.execute (see _loc)
+
+
+def _loc(prog) -> str:
+    from .common import waiting_future_key
+    return waiting_future_key(prog)
 
 
 def waiting_classes(prog):
@@ -21,6 +26,7 @@ def waiting_classes(prog):
 def waiting_future_writers(chk: Check, rule: str = 'FUT-multi-writer'):
     """All writer sites of the waiting future, classified. Shared with C04 / C05 / C10."""
     prog = chk.prog
+    LOC = _loc(prog)
     sites = []
     for c in waiting_classes(prog):
         for f in c.methods.values():
@@ -35,6 +41,7 @@ def rearm_after_interruption(chk: Check, rule: str) -> None:
     (a writer that meets None raises AttributeError in an event-loop callback: the wake-up is lost).  Shared with C05."""
     from ..facts import not_none
     prog = chk.prog
+    LOC = _loc(prog)
     we = prog.func('process_states.Waiting.execute')
     rearm_ok = False
     for t in [n for n in ast.walk(we.node) if isinstance(n, ast.Try)]:
@@ -79,6 +86,7 @@ def rearm_after_interruption(chk: Check, rule: str) -> None:
 
 def run(chk: Check) -> None:
     prog = chk.prog
+    LOC = _loc(prog)
     sites = waiting_future_writers(chk)
     chk.floor('FUT-multi-writer', len(sites), 2)
     roles = sorted({s.func.qualname for s in sites})
